@@ -18,10 +18,17 @@ type vpSource struct {
 	// backlog was read (the block manager commits and announces from its own
 	// goroutines while a registration is in progress)
 	raceEmit int
+	// park: the next backlog request waits here (a slow header store)
+	park chan struct{}
 }
 
 func (s *vpSource) Notifications() <-chan BlockNtfn { return s.ch }
 func (s *vpSource) NotificationsSinceHeight(h uint32) ([]BlockNtfn, uint32, error) {
+	if s.park != nil {
+		p := s.park
+		s.park = nil
+		<-p
+	}
 	if h > s.height {
 		// like the block manager: a height the chain has not reached is refused
 		return nil, 0, errors.New("vp: request with a height greater than the best height known")
@@ -434,4 +441,59 @@ func VerifH_C11_concurrentSubscribe() {
 		vpAssert(vpOr(vpAnd(best != 0, best == src.height), vpAnd(best == 0, heightAtReturn == src.height)), "new:nothing-delivered-only-if-nothing-due")
 	}
 	vpAssert(!vn.closed, "new:live-subscription-stays-open")
+}
+
+// VerifH_C11_stopDuringRegistration: Stop is called while the handler is
+// busy registering a client (the backlog read takes its time).  The
+// registering caller is released with the shutdown error, Stop returns once
+// the backlog read is over, and the live subscriber's channel is closed.
+func VerifH_C11_stopDuringRegistration() {
+	src := &vpSource{ch: make(chan BlockNtfn)}
+	m := NewSubscriptionManager(src)
+	m.Start()
+	src.height = uint32(vpRange("preEmitted", 0, 2))
+	a, err := m.NewSubscription(0)
+	if err != nil {
+		vpAssert(false, "subscribe-ok")
+		return
+	}
+	va := &vpSub{sub: a, from: src.height + 1}
+	if vpRange("eventBefore", 0, 1) == 1 {
+		src.emit()
+	}
+	park := make(chan struct{})
+	src.park = park
+	var err2 error
+	var s2 *Subscription
+	regDone := make(chan struct{})
+	go func() {
+		s2, err2 = m.NewSubscription(uint32(vpRange("bestHeight", 0, int(src.height))))
+		close(regDone)
+	}()
+	vpQuiesce() // the handler now waits inside the backlog read
+	stopDone := make(chan struct{})
+	go func() {
+		m.Stop()
+		close(stopDone)
+	}()
+	vpQuiesce()
+	vpReach("stop-requested-during-a-registration")
+	close(park) // the backlog read finishes
+	<-regDone   // the registering caller is released
+	<-stopDone  // Stop returns (a hang shows up as a deadlock)
+	if err2 == nil && s2 != nil {
+		// the registration may still have gone through: then its channel is closed as well
+		v2 := &vpSub{sub: s2}
+		v2.drain()
+		vpAssert(v2.closed, "new:channel-closed-after-stop")
+	}
+	va.drain()
+	vpAssert(va.closed, "live:channel-closed-after-stop")
+	ok := true
+	for i, h := range va.got {
+		if h != va.from+uint32(i) {
+			ok = false
+		}
+	}
+	vpAssert(ok, "live:events-in-emission-order-none-repeated")
 }
